@@ -368,7 +368,7 @@ def run(tier):
                        "`%s` sets the prototype of an existing object without the cycle check: a cyclic prototype chain makes `instanceof` spin forever inside one step() and property lookup overflow the stack" % f.parent)
 
     # ---------------- R6
-    ck.rule("R6.dispatch-loops", "natural loops of the instruction dispatch are iterator / drain / counter driven", floor=20)
+    ck.rule("R6.dispatch-loops", "natural loops of the instruction dispatch are iterator / drain / counter driven", floor=10)
     for name in (EXEC, RUN, "interpreter::bytecode_vm::BytecodeVM::step", "interpreter::Interpreter::step"):
         f = fx.fns.get(name)
         if not ck.anchor(f is not None, "function " + name):
